@@ -207,6 +207,23 @@ def check_fuse(ch, x, groups, ferm, modes=("auto", "insert", "concat"),
             z2 = must(y.unfuse_all, what="unfuse_all")
             z2 = must(z2.transpose, tuple(inv), what="transpose")
             same_array(z2, x, sig + ":roundtrip-unfuse_all", exact=True)
+    # the conjugate (same index objects, reversed directions) fused the same
+    # way right afterwards must behave like a fresh array
+    xc = must(x.conj, what="conj")
+    yc = must(xc.fuse, *gtuple, what="fuse(conj)")
+    require_valid(yc, "fuse-conj:invalid", "fused conjugate")
+    for g, grp in enumerate(groups):
+        require(yc.indices[position + g].dual == xc.indices[grp[0]].dual,
+                "fuse-conj:direction",
+                lambda: f"group {grp}: fused dual "
+                        f"{yc.indices[position + g].dual}")
+    zc = yc
+    for g in reversed(range(len(groups))):
+        if len(groups[g]) > 1:
+            zc = must(zc.unfuse, position + g, what="unfuse(conj)")
+    zc = must(zc.transpose, tuple([perm.index(a) for a in range(nd)]),
+              what="transpose")
+    same_array(zc, xc, "fuse-conj:roundtrip", exact=True)
     if cache_check:
         m0, y0 = first
         with no_caches():
